@@ -1,5 +1,6 @@
 (* C05 driver.
      compose <rtype> <field>...        -> Reject | <wire> <rdlen> <rdlen_compress> <canonical>
+     txtlim <op>...                     -> Reject | Ok <RDATA octets> <strings> <length of the last>   (ops s:<len> u:<len> c:<len>, fill 0x61; with the 65535 limit)
      txtbuild <op>...                   -> <TXT RDATA built by TxtBuilder>   (ops s:<hex> u:<hex> c:<hex>, `.` = none)
      lenrdata <rtype> <field>...        -> <len+wire> <len+canonical>   (provided methods through `&T`)
      viamsg <target> <rtype> <field>... -> rdlenc=<n|None> back=<decompressed rdata> rdlength=ok wire=<plain|any>
@@ -86,6 +87,14 @@ let handle = function
                   let d = bytes_of_hex (String.sub w 2 (k - 2)) in
                   match w.[0] with 's' -> TSlice d | 'u' -> TOctets d | 'c' -> TCharStr d | _ -> failwith "bad txt op") in
       hex_of_bytes (c05_txtbuild (List.map op (List.filter (fun w -> w <> ".") ops)))
+  | "txtlim" :: ops ->
+      let fill k = List.init k (fun _ -> n_of_int 0x61) in
+      let op w = (let k = String.length w in
+                  let d = fill (int_of_string (String.sub w 2 (k - 2))) in
+                  match w.[0] with 's' -> TSlice d | 'u' -> TOctets d | 'c' -> TCharStr d | _ -> failwith "bad txt op") in
+      (match c05_txtlim (List.map op ops) with
+       | None -> "Reject"
+       | Some ((a, b), c) -> Printf.sprintf "Ok %d %d %d" (int_of_n a) (int_of_n b) (int_of_n c))
   | "lenrdata" :: t :: toks ->
       (* compose_len_rdata / compose_canonical_len_rdata through a reference: u16 length + RDATA *)
       let t = n_of_int (int_of_string t) in
